@@ -224,6 +224,8 @@ def run_cases(exe, mode, lines, path, timeout=900, per_run=40, max_timeouts=3):
         rc, out = vlib.sh([exe, "--mode=" + mode, path, str(start)], timeout=max(per_run, 0.5 * (n - start)))
         last = start - 1
         ol = out.split("\n")
+        if rc != 0 and ol and ol[-1].startswith("R "):
+            ol.pop()             # the process was stopped while writing this answer
         for l in ol:
             if l.startswith("R "):
                 sp = l.split(" ", 2)
@@ -235,6 +237,16 @@ def run_cases(exe, mode, lines, path, timeout=900, per_run=40, max_timeouts=3):
                 last = max(last, i)
         if last + 1 >= n:
             break
+        if rc == 124:
+            # the whole batch ran out of time (loaded machine?): the case alone gets the full time limit once more
+            with open(path + ".one", "w") as f:
+                f.write(lines[last + 1] + "\n")
+            rc1, out1 = vlib.sh([exe, "--mode=" + mode, path + ".one"], timeout=per_run)
+            a1 = [x for x in out1.split("\n") if x.startswith("R 0")]
+            if rc1 == 0 and a1:
+                res[last + 1] = a1[0].split(" ", 2)[2] if len(a1[0].split(" ", 2)) > 2 else ""
+                start = last + 2
+                continue
         res[last + 1] = "ABORT " + ("timeout (no answer)" if rc == 124 else norm_msg(ol))
         start = last + 2
         if rc == 124:
@@ -297,10 +309,10 @@ def run_domain(prop, tier, seed, dom, exe, known, n=None, lines=None):
     outd = os.path.join(vlib.VERIF, "out", prop)
     lines = lines if lines is not None else programs(seed, tier, prop, name, n, bools=dom.get("bools", False))
     t0 = time.time()
-    answers = run_cases(exe, name, lines, os.path.join(outd, stream + ".cases"))
+    answers = run_cases(exe, name, lines, os.path.join(outd, stream + (".replay" if len(lines) == 1 else "") + ".cases"))
     st["harness_s"] = round(time.time() - t0, 1)
     st["cases"] = len(lines)
-    nrep = {"oracle": 0, "abort": 0}
+    nrep = {"oracle": 0, "abort": 0, "timeout": 0}
     nknown = {}
     opt_count = {"thresholds": 0, "liveness": 0, "alt_entry": 0, "assumptions": 0, "boolean_statements": 0}
     letters = {}
@@ -325,10 +337,12 @@ def run_domain(prop, tier, seed, dom, exe, known, n=None, lines=None):
             st["oracle_errors"] = st.get("oracle_errors", 0) + 1
             st.setdefault("oracle_error_sample", "%r on %s" % (e, l[:300]))
         if not w:
-            if nontrivial(prop, l, a):
-                st["distinct_nontrivial"] += 1
+            try:
+                st["distinct_nontrivial"] += bool(nontrivial(prop, l, a))
+            except Exception:
+                pass
             continue
-        cls = "abort" if is_abort(a) else "oracle"
+        cls = ("timeout" if "timeout (no answer)" in a else "abort") if is_abort(a) else "oracle"
         kn = match_known(known, stream, l, w)
         if kn:
             st["known_finding_hits"] += 1
@@ -336,7 +350,7 @@ def run_domain(prop, tier, seed, dom, exe, known, n=None, lines=None):
             if nknown[kn["what"]] == 1:
                 res.known.append((kn["what"], w))
             continue
-        if cls == "abort":
+        if cls != "oracle":
             st["aborts"] += 1
             c = re.sub(r"\bv\d+\b", "v_", a[6:])[:160]
             st.setdefault("abort_classes", {})
@@ -345,8 +359,9 @@ def run_domain(prop, tier, seed, dom, exe, known, n=None, lines=None):
             st["oracle_violations"] += 1
         nrep[cls] += 1
         if nrep[cls] <= MAX_REPORTS:
-            head = ("FAILING INPUT (the forward analysis over the real %s domain aborts, no model involved): " if cls == "abort" else
-                    "FAILING INPUT (property oracle on the answer of the forward analyzer over the real %s domain, no model involved): ") % name
+            head = {"abort": "FAILING INPUT (the forward analysis over the real %s domain aborts, no model involved): ",
+                    "timeout": "FAILING INPUT (the forward analysis over the real %s domain gives no answer within the time limit (no termination?), no model involved): ",
+                    "oracle": "FAILING INPUT (property oracle on the answer of the forward analyzer over the real %s domain, no model involved): "}[cls] % name
             text = (head + w + "\nstream=%s case=%d domain=%s (%s)\ninput: %s\nimplementation: %s\n"
                     "replay: python3 checks/fwddoms.py %s --dom %s --replay '<input>'\n"
                     % (stream, i, name, dom["what"], l, a, prop, name))
@@ -361,6 +376,13 @@ def run_domain(prop, tier, seed, dom, exe, known, n=None, lines=None):
 def streams(rep, tier, seed, prop=None, only=None, n=None):
     prop = prop or rep.prop
     t0 = time.time()
+    replay_line = None
+    if getattr(vlib, "REPLAY", None) is not None:
+        # bin/check <id> --replay <file>: only the recorded program, on the domain of the recorded stream
+        m = re.match(r"fwd-(.+)-oracle$", vlib.REPLAY[0])
+        if not m or m.group(1) not in [d["name"] for d in DOMAINS]:
+            return
+        only, replay_line = [m.group(1)], [vlib.REPLAY[1]]
     doms = [d for d in DOMAINS if only is None or d["name"] in only]
     tus = sorted(set(d["tu"] for d in doms))
     built = vlib.build_harnesses(tus)
@@ -384,13 +406,15 @@ def streams(rep, tier, seed, prop=None, only=None, n=None):
             rep.cov["streams"][stream_name(d["name"])] = {"cases": 0, "oracle_violations": 0, "aborts": 0, "distinct_nontrivial": 0}
     results = {}
     with ThreadPoolExecutor(NWORKERS) as ex:
-        futs = {d["name"]: ex.submit(run_domain, prop, tier, seed, d, built[d["tu"]][0], known, n) for d in good}
+        futs = {d["name"]: ex.submit(run_domain, prop, tier, seed, d, built[d["tu"]][0], known, n, replay_line) for d in good}
         for name, f in futs.items():
             try:
                 results[name] = f.result()
             except Exception as e:      # e.g. the build directory was pruned by a concurrent check
+                import traceback
                 r = DomResult()
-                r.violations.append(("%s-error" % stream_name(name), "forward analysis over %s could not be run: %r" % (name, e), False))
+                r.violations.append(("%s-error" % stream_name(name), "forward analysis over %s could not be run: %r\n%s"
+                                     % (name, e, "".join(traceback.format_exception(type(e), e, e.__traceback__))[-1500:]), False))
                 results[name] = r
     known_all = {}
     for d in good:
